@@ -21,6 +21,11 @@ type c08Case struct {
 	FromPrev   bool     `json:"from_prev,omitempty"`   // rtt_low = current baseline, rtt_high relative to the baseline in force before its latest change (when that was higher)
 	ZeroLow    bool     `json:"zero_low,omitempty"`    // gradient2 with d_low == 0: rtt_low = 0
 	Pm         int      `json:"pm,omitempty"`          // further rtt_low * Pm/1000 added to rtt_high (ratios just above 1)
+	// Ref / RefPct: rtt_low is placed relative to the RTTs the history has seen - RefPct percent of the last / mean /
+	// smallest RTT of the prefix - so that pairs only a few permille apart straddle whatever internal threshold is a
+	// multiple of a remembered RTT (it is still raised to the baseline where the algorithm has one)
+	Ref    string `json:"ref,omitempty"`
+	RefPct int    `json:"ref_pct,omitempty"`
 }
 
 func genC08(t *rapid.T) c08Case {
@@ -89,6 +94,20 @@ func genC08(t *rapid.T) c08Case {
 			c.FromPrev = c.FromPrev || rapid.Bool().Draw(t, "fromPrev2") // straddle the baseline that was in force before the drop
 		}
 	}
+	if len(c.Prefix) > 0 && rapid.IntRange(0, 2).Draw(t, "relToHistory") == 0 {
+		c.Ref = rapid.SampledFrom([]string{"last", "last", "mean", "min"}).Draw(t, "ref")
+		c.RefPct = rapid.SampledFrom([]int{25, 50, 90, 100, 110, 150, 199, 200, 201, 300, 400}).Draw(t, "refPct")
+		if rapid.Bool().Draw(t, "steady") {
+			// a steady history: every remembered RTT (latest, averages, minimum) is the same value
+			r := rapid.OneOf(rapid.Int64Range(100, 100_000), rapid.Int64Range(1_000_000, 50_000_000)).Draw(t, "steadyRTT")
+			for i := range c.Prefix {
+				c.Prefix[i].RTT, c.Prefix[i].Drop = r, false
+				if c.Prefix[i].Rel == "" || c.Prefix[i].Rel == "third" {
+					c.Prefix[i].Rel = "eq"
+				}
+			}
+		}
+	}
 	c.Pm = rapid.OneOf(rapid.Just(0), rapid.Just(0), rapid.IntRange(1, 999), rapid.IntRange(1, 150)).Draw(t, "pm")
 	c.DHigh = rapid.OneOf(rapid.Just(int64(1)), rapid.Int64Range(1, 1000), rapid.Int64Range(1, 1_000_000_000)).Draw(t, "dhigh")
 	return c
@@ -120,16 +139,45 @@ func runC08(_ *testing.T, c c08Case) kit.Outcome {
 			break // right after the baseline dropped (through a faster sample, or through a probe that landed on one)
 		}
 	}
-	twin := deepClone(b.Inner)
-	run := func(high bool) res {
-		b := b
-		if high {
-			b = built{Outer: twin, Inner: twin}
+	var ref int64
+	if c.Ref != "" && len(c.Prefix) > 0 {
+		var sum, mn int64 = 0, c.Prefix[0].RTT
+		for _, s := range c.Prefix {
+			sum += s.RTT / int64(len(c.Prefix))
+			if s.RTT < mn {
+				mn = s.RTT
+			}
 		}
+		switch c.Ref {
+		case "last":
+			ref = c.Prefix[len(c.Prefix)-1].RTT
+		case "mean":
+			ref = sum
+		default:
+			ref = mn
+		}
+		if ref > 1<<50 {
+			ref = 0
+		}
+	}
+	// pcts: the places (percent of the reference RTT) at which a pair is tried; one history serves all of them,
+	// each pair on its own two copies of the instance
+	pcts := []int{c.RefPct}
+	if ref > 0 {
+		pcts = []int{c.RefPct, 25, 50, 75, 100, 125, 150, 200, 250, 300, 400}
+	}
+	run := func(high bool, pct int) res {
+		x := deepClone(b.Inner)
+		b := built{Outer: x, Inner: x}
 		var r res
 		r.pre = b.Outer.EstimatedLimit()
 		r.base, _ = b.noLoad()
 		low := r.base + c.DLow
+		if ref > 0 {
+			if v := ref/100*int64(pct) + ref%100*int64(pct)/100; v >= r.base {
+				low = v
+			}
+		}
 		if c.FromPrev && prevBase > low {
 			low = r.base // rtt_low sits at the current baseline, rtt_high is taken relative to the previous one (below)
 		}
@@ -155,12 +203,18 @@ func runC08(_ *testing.T, c c08Case) kit.Outcome {
 		r.post = b.Outer.EstimatedLimit()
 		return r
 	}
-	a, bb := run(false), run(true)
-	if a.pre != bb.pre || a.base != bb.base {
-		return kit.Outcome{Harness: "twin instances diverged before the final sample (harness defect)"}
-	}
-	if bb.post > a.post {
-		return kit.Viol(c.Cfg.Algo+":rtt-monotone", "same history (estimate %d, baseline %d), same in-flight/drop: the higher RTT gave estimate %d, the lower RTT %d", a.pre, a.base, bb.post, a.post)
+	var a, bb res
+	for i, pct := range pcts {
+		x, y := run(false, pct), run(true, pct)
+		if x.pre != y.pre || x.base != y.base {
+			return kit.Outcome{Harness: "twin instances diverged before the final sample (harness defect)"}
+		}
+		if y.post > x.post {
+			return kit.Viol(c.Cfg.Algo+":rtt-monotone", "same history (estimate %d, baseline %d), same in-flight/drop: the higher RTT gave estimate %d, the lower RTT %d (pair placed at %d%% of the %s RTT of the history)", x.pre, x.base, y.post, x.post, pct, c.Ref)
+		}
+		if i == 0 || x.post != y.post {
+			a, bb = x, y
+		}
 	}
 	out := kit.Outcome{Labels: []string{"algo:" + c.Cfg.Algo}}
 	if probed {
@@ -168,6 +222,9 @@ func runC08(_ *testing.T, c c08Case) kit.Outcome {
 	}
 	if c.Cfg.Ctor != "" || len(c.Cfg.Unset) > 0 {
 		out.Labels = append(out.Labels, "defaults-in-play")
+	}
+	if ref > 0 {
+		out.Labels = append(out.Labels, "rtt-relative-to-history")
 	}
 	if !c.Final.Drop && 2*c.Final.inflight(a.pre) < a.pre {
 		out.Labels = append(out.Labels, "final-app-limited")
@@ -185,7 +242,7 @@ func runC08(_ *testing.T, c c08Case) kit.Outcome {
 func TestC08_monotone(t *testing.T) {
 	kit.RequireMode(t, "std")
 	kit.Check(t, kit.Prop[c08Case]{
-		ID: "C08", Quick: 20000, Thor: 800_000,
+		ID: "C08", Quick: 30000, Thor: 800_000,
 		Rule: "twin instances (same jitter seed, same prefix history) fed a final sample differing only in RTT (low >= baseline, high > low); non-trivial = the two outcomes differ or both moved away from the pre-sample estimate",
 		Gen:  genC08, Run: runC08,
 	})
